@@ -187,15 +187,17 @@ func registerMore2() {
 	})
 	addProp(&PropSpec{
 		ID: "C19",
-		Explanation: "PARTIAL (the jhttp.Channel clause is outside, see below). (1) ParseQuery and ParseBasic on a request whose single query value is a symbolic string over the alphabet {\" ' + - 0 1 . e x _ n a i f} or one of the words true/false/null/inf/nan/infinity/-inf/+inf in lower, upper or title case: no panic, non-empty method equal to the trimmed path, parameters JSON-marshalable (checked by marshalling them through the json stub, where NaN/Inf fail), typing per the documented cascade (values strconv accepts beyond the documented grammar may be finite numbers: 'liberal typing', tolerated). " +
-			"(2) the path trimmed of slashes for every path of <= 4 symbolic bytes. (3) Getter.ServeHTTP over a real server.Local: 400 for an unparsable URL, 200 with the result, 404 for method-not-found (unknown method, or a handler error with that code), 500 otherwise; body always valid JSON.",
+		Explanation: "(1) ParseQuery and ParseBasic on a request whose single query value is a symbolic string over the alphabet {\" ' + - 0 1 . e x _ n a i f} or one of the words true/false/null/inf/nan/infinity/-inf/+inf in lower, upper or title case: no panic, non-empty method equal to the trimmed path, parameters JSON-marshalable (checked by marshalling them through the json stub, where NaN/Inf fail), typing per the documented cascade (values strconv accepts beyond the documented grammar may be finite numbers: 'liberal typing', tolerated). " +
+			"(2) the path trimmed of slashes for every path of <= 4 symbolic bytes. (3) Getter.ServeHTTP over a real server.Local: 400 for an unparsable URL, 200 with the result, 404 for method-not-found (unknown method, or a handler error with that code), 500 otherwise; body always valid JSON. " +
+			"(4) A real jrpc2.Client over the real jhttp.Channel against a real Bridge through an in-process HTTPClient (Do calls Bridge.ServeHTTP; response bodies count Close): call, notification (204 short-circuit), batch with a notification and an unknown method, HTTP failure; results equal the direct connection's, after Client.Close every response body is closed and no engine thread of the library is left.",
 		Bounds:      []string{"one query key; value <= 3 bytes over the 14-letter alphabet or a listed word", "path <= 4 bytes", "handler error code: any int32"},
-		Outside:     []string{"jhttp.Channel over net/http (one goroutine per POST, response-body closing, drain on Close): needs the HTTP client/transport stack and goroutine-leak observation of library goroutines, which this engine does not model", "url parsing / percent-decoding (Request.ParseForm is a stub: the harness supplies Form)"},
+		Outside:     []string{"the real net/http client and transport (the HTTPClient is in-process; http.NewRequest is a stub that builds a minimal request without URL parsing)", "url parsing / percent-decoding (Request.ParseForm is a stub: the harness supplies Form)"},
 		Assumptions: append([]string{jsonAssumption, threadAssumption, "strconv.ParseInt/ParseFloat: bytes are case-split to representatives (digits into zero/non-zero) and the real strconv function is run on the representative; range errors with >= 3 exponent digits are nondeterministic", "base64.RawStdEncoding.DecodeString is run on the concretised text", "net/http.Header and url.Values executed from source; http.ResponseWriter is a harness recorder"}, commonAssumptions...),
 		Harnesses: []HarnessSpec{
 			{Dir: "jhttp", Name: "Harness_C19_query", Reach: []string{"returned", "number", "quoted", "bytes", "literal", "liberal-number"}},
 			{Dir: "jhttp", Name: "Harness_C19_path", Reach: []string{"returned"}},
 			{Dir: "jhttp", Name: "Harness_C19_getter", Reach: []string{"200", "400", "404", "500"}},
+			{Dir: "jhttp", Name: "Harness_C19_channel", Reach: []string{"call", "notify", "batch", "http-failure", "closed"}},
 		},
 	})
 	addProp(&PropSpec{
